@@ -11,7 +11,9 @@ use crate::{clock, Meta, Tier};
 use indicatif::{ProgressBar, ProgressDrawTarget, ProgressStyle};
 use serde_json::{json, Value};
 
-pub const TEMPLATES: [&str; 4] = ["{msg}", "{prefix}{msg}\n{pos}/{len}", "{spinner} {wide_msg}", "{wide_bar} {pos}"];
+pub const TEMPLATES: [&str; 5] = ["{msg}", "{prefix}{msg}\n{pos}/{len}", "{spinner} {wide_msg}", "{wide_bar} {pos}", "{k}{msg}"];
+/// what the custom key `k` of template 4 writes: two lines
+pub const KEY_OUT: &str = "p\nq";
 const TICKS: &str = "01234 ";
 
 #[derive(Clone, Debug, PartialEq)]
@@ -46,6 +48,9 @@ pub fn msg_text(i: usize, w: usize) -> String {
         5 => "\x1b[1m\x1b[0m".into(),
         // double-width text, wider than the terminal (truncated by {wide_msg}, wrapped otherwise)
         6 => "日本語".repeat(w / 3 + 1),
+        // as many characters as columns although it holds double-width characters (each followed by a
+        // zero-width combining mark), longer than the terminal
+        8 => format!("a{}", "か\u{3099}".repeat(w / 2 + 1)),
         _ => "t\n".into(),
     }
 }
@@ -110,6 +115,10 @@ pub fn render_ref(b: &RefBar, w: usize) -> Option<Vec<String>> {
             lines.extend(first.split('\n').map(|s| s.to_string()));
             lines.push(format!("{}/{}", b.pos, len));
         }
+        4 => {
+            let all = format!("{}{}", KEY_OUT, b.msg);
+            lines.extend(all.split('\n').map(|s| s.to_string()));
+        }
         2 => {
             if !plain_ascii(&b.msg) {
                 return None;
@@ -155,7 +164,7 @@ pub fn render_ref(b: &RefBar, w: usize) -> Option<Vec<String>> {
 }
 
 pub fn style_for(tpl: usize) -> ProgressStyle {
-    ProgressStyle::with_template(TEMPLATES[tpl]).unwrap().tick_chars(TICKS)
+    ProgressStyle::with_template(TEMPLATES[tpl]).unwrap().tick_chars(TICKS).with_key("k", |_: &indicatif::ProgressState, w: &mut dyn std::fmt::Write| w.write_str(KEY_OUT).unwrap())
 }
 
 /// Differential oracle: rows a *fresh* bar in the same logical state paints on a clean terminal.
@@ -209,6 +218,8 @@ pub struct C01 {
     pub tpl0: usize,
     pub vt: bool,
     pub reduced: bool,
+    /// focus alphabet: a custom key that writes two lines, text with zero-width characters
+    pub extra: bool,
 }
 
 impl C01 {
@@ -238,6 +249,9 @@ impl Hist for C01 {
                 v.push(Op::Widen);
             }
             return v;
+        }
+        if self.extra {
+            return vec![Op::Tick, Op::Inc, Op::Msg(0), Op::Msg(1), Op::Msg(8), Op::Msg(3), Op::Style(4), Op::Style(0), Op::Println(1), Op::SuspendOut, Op::Reset, Op::Finish, Op::FinishClear, Op::FinishMsg];
         }
         let mut v = vec![Op::Tick, Op::Inc, Op::SetPosToLen, Op::SetLength7];
         v.extend((0..8).filter(|&i| i != 6 || self.w >= 2).map(Op::Msg));
@@ -424,32 +438,41 @@ fn configs(tier: Tier) -> Vec<(C01, usize)> {
         Tier::Quick => {
             for &w in &[1usize, 3, 8, 20] {
                 for tpl0 in [0usize, 1] {
-                    v.push((C01 { widen_from: None, w, h: 40, tpl0, vt: w == 8, reduced: false }, 4));
+                    v.push((C01 { widen_from: None, w, h: 40, tpl0, vt: w == 8, reduced: false, extra: false }, 4));
                 }
             }
-            v.push((C01 { widen_from: None, w: 8, h: 40, tpl0: 1, vt: false, reduced: true }, 4));
-            v.push((C01 { widen_from: None, w: 3, h: 40, tpl0: 0, vt: false, reduced: true }, 4));
+            v.push((C01 { widen_from: None, w: 8, h: 40, tpl0: 1, vt: false, reduced: true, extra: false }, 4));
+            v.push((C01 { widen_from: None, w: 3, h: 40, tpl0: 0, vt: false, reduced: true, extra: false }, 4));
             // terminals exactly as high as the frame (histories in which a frame does not fit are skipped)
-            v.push((C01 { widen_from: None, w: 20, h: 2, tpl0: 1, vt: false, reduced: false }, 3));
-            v.push((C01 { widen_from: None, w: 8, h: 1, tpl0: 0, vt: false, reduced: false }, 3));
-            v.push((C01 { widen_from: None, w: 3, h: 3, tpl0: 1, vt: true, reduced: true }, 4));
+            v.push((C01 { widen_from: None, w: 20, h: 2, tpl0: 1, vt: false, reduced: false, extra: false }, 3));
+            v.push((C01 { widen_from: None, w: 8, h: 1, tpl0: 0, vt: false, reduced: false, extra: false }, 3));
+            v.push((C01 { widen_from: None, w: 3, h: 3, tpl0: 1, vt: true, reduced: true, extra: false }, 4));
+            // a custom key that writes two lines; as many characters as columns with double-width ones among them
+            for w in [3usize, 5, 8] {
+                v.push((C01 { widen_from: None, w, h: 40, tpl0: 4, vt: false, reduced: false, extra: true }, 4));
+            }
             // a terminal that is widened between two operations (it reported 12 columns, then 30)
-            v.push((C01 { widen_from: Some(12), w: 30, h: 40, tpl0: 3, vt: false, reduced: false }, 4));
-            v.push((C01 { widen_from: Some(12), w: 30, h: 40, tpl0: 2, vt: false, reduced: false }, 3));
+            v.push((C01 { widen_from: Some(12), w: 30, h: 40, tpl0: 3, vt: false, reduced: false, extra: false }, 4));
+            v.push((C01 { widen_from: Some(12), w: 30, h: 40, tpl0: 2, vt: false, reduced: false, extra: false }, 3));
         }
         Tier::Thorough => {
             for &w in &[1usize, 2, 3, 8, 20] {
                 for tpl0 in 0..4usize {
-                    v.push((C01 { widen_from: None, w, h: 60, tpl0, vt: true, reduced: false }, 4));
+                    v.push((C01 { widen_from: None, w, h: 60, tpl0, vt: true, reduced: false, extra: false }, 4));
                 }
             }
-            v.push((C01 { widen_from: None, w: 8, h: 60, tpl0: 1, vt: false, reduced: false }, 5));
-            v.push((C01 { widen_from: None, w: 3, h: 60, tpl0: 0, vt: false, reduced: false }, 5));
+            v.push((C01 { widen_from: None, w: 8, h: 60, tpl0: 1, vt: false, reduced: false, extra: false }, 5));
+            v.push((C01 { widen_from: None, w: 3, h: 60, tpl0: 0, vt: false, reduced: false, extra: false }, 5));
             for tpl0 in 0..4usize {
-                v.push((C01 { widen_from: Some(12), w: 30, h: 60, tpl0, vt: false, reduced: false }, 5));
+                v.push((C01 { widen_from: Some(12), w: 30, h: 60, tpl0, vt: false, reduced: false, extra: false }, 5));
+            }
+            for w in [2usize, 3, 5, 8, 9] {
+                for tpl0 in [0usize, 4] {
+                    v.push((C01 { widen_from: None, w, h: 60, tpl0, vt: false, reduced: false, extra: true }, 5));
+                }
             }
             for (w, h, tpl0) in [(20usize, 2usize, 1usize), (8, 1, 0), (3, 3, 1), (20, 1, 2), (8, 2, 3), (2, 4, 1)] {
-                v.push((C01 { widen_from: None, w, h, tpl0, vt: w >= 2 && h >= 2, reduced: false }, 4));
+                v.push((C01 { widen_from: None, w, h, tpl0, vt: w >= 2 && h >= 2, reduced: false, extra: false }, 4));
             }
         }
     }
